@@ -41,8 +41,8 @@ func (c *Ctx) init() {
 	})
 }
 
-func (c *Ctx) f() *big.Float            { return new(big.Float).SetPrec(c.Prec + 64) }
-func (c *Ctx) i(v int64) *big.Float     { return c.f().SetInt64(v) }
+func (c *Ctx) f() *big.Float                  { return new(big.Float).SetPrec(c.Prec + 64) }
+func (c *Ctx) i(v int64) *big.Float           { return c.f().SetInt64(v) }
 func (c *Ctx) add(a, b *big.Float) *big.Float { return c.f().Add(a, b) }
 func (c *Ctx) sub(a, b *big.Float) *big.Float { return c.f().Sub(a, b) }
 func (c *Ctx) mul(a, b *big.Float) *big.Float { return c.f().Mul(a, b) }
